@@ -497,32 +497,59 @@ func c01TypeSelection(w *World, r *Report) {
 		}
 	}
 	r.Check(okW && nW == 3, "R01.2", "compareAndPushNodesets operand order", afd.Pos(), "compareWorker(ops1, ops2, _) ×3", "operand sets exchanged or a comparison kind missing")
-	// compareWorker: existential
-	wfd, wp := w.FuncDecl(cw)
-	exist := false
-	ast.Inspect(wfd.Body, func(n ast.Node) bool {
-		is, ok := n.(*ast.IfStmt)
-		if !ok {
-			return true
+	// compareWorker: existential — true is pushed in the middle of the scan exactly when the
+	// comparator accepts the current pair (left element, right element); false once both lists are exhausted
+	wfd, _ := w.FuncDecl(cw)
+	exist, lastFalse := false, false
+	if wf := w.SSAFunc(cw); wf != nil && len(wf.Params) == 4 {
+		sym := NewSym(w)
+		pushesConst := func(b *ssa.BasicBlock) (bool, bool) {
+			for _, in := range b.Instrs {
+				c, ok := in.(*ssa.Call)
+				if !ok || c.Call.StaticCallee() == nil || c.Call.StaticCallee().Object() != types.Object(newBool) {
+					continue
+				}
+				if k, ok := c.Call.Args[0].(*ssa.Const); ok && k.Value != nil {
+					return k.Value.ExactString() == "true", true
+				}
+			}
+			return false, false
 		}
-		ce, ok := ast.Unparen(is.Cond).(*ast.CallExpr)
-		if !ok || objOfIdent(wp, ce.Fun) != paramObj(wp, wfd, 2) || len(ce.Args) != 2 {
-			return true
+		elemOf := func(v ssa.Value, list ssa.Value) bool {
+			ld, ok := v.(*ssa.UnOp)
+			if !ok {
+				return false
+			}
+			ia, ok := ld.X.(*ssa.IndexAddr)
+			return ok && ia.X == list && isRangeIndex(ia.Index)
 		}
-		for _, c := range callsTo(wp, is.Body, newBool) {
-			if v := ConstOf(wp, c.Args[0]); v != nil && constant.BoolVal(v) && len(returnsIn(is.Body)) == 1 {
-				exist = true
+		hit := pcZ
+		nHit, nMiss, bad := 0, 0, false
+		for _, ex := range searchExits(sym, wf) {
+			val, pushes := pushesConst(ex.block)
+			switch {
+			case ex.inLoop && pushes && val:
+				nHit++
+				hit = pcOrF(hit, ex.cond)
+			case !ex.inLoop && pushes && !val:
+				nMiss++
+			default:
+				bad = true
 			}
 		}
-		return true
-	})
-	lastFalse := false
-	if n := len(wfd.Body.List); n > 0 {
-		for _, c := range callsTo(wp, wfd.Body.List[n-1], newBool) {
-			if v := ConstOf(wp, c.Args[0]); v != nil && !constant.BoolVal(v) {
-				lastFalse = true
-			}
+		if !bad && nHit > 0 {
+			exist = pcCompare(hit, func(a *pcAtom) string {
+				if a.op == token.LSS && a.x != nil && isRangeIndex(a.x) {
+					return "iter"
+				}
+				if c, ok := a.v.(*ssa.Call); ok && c.Call.Value == ssa.Value(wf.Params[3]) && len(c.Call.Args) == 2 &&
+					elemOf(c.Call.Args[0], wf.Params[1]) && elemOf(c.Call.Args[1], wf.Params[2]) {
+					return "match"
+				}
+				return ""
+			}, func(env map[string]bool) bool { return env["iter"] && env["match"] }) == ""
 		}
+		lastFalse = !bad && nMiss > 0
 	}
 	r.Check(exist && lastFalse, "R01.2", "compareWorker existential", wfd.Pos(), "some pair true ⇒ true; otherwise false", "node-set comparison is no longer 'true iff some pair compares true'")
 }
